@@ -134,6 +134,10 @@ func reuseProtocol(t *vlib.T, factorize func(recv, which int), observe func(recv
 		return
 	}
 	if d := sameObs(o2.list, of.list); d != "" {
+		// Two runs of the same calls on the same input that differ are a violation in
+		// themselves, also when the difference comes from uninitialised workspace and
+		// does not reproduce: no confirmation re-runs.
+		t.NoConfirm()
 		t.Failf("re-used receiver differs from a fresh receiver: %s", d)
 	}
 	// a second round of accessors on the re-used receiver gives the same again (caches filled by the first round)
@@ -152,6 +156,7 @@ func reuseProtocol(t *vlib.T, factorize func(recv, which int), observe func(recv
 		return out
 	}
 	if d := sameObs(drop(o3.list), drop(o2.list)); d != "" {
+		t.NoConfirm()
 		t.Failf("second round of accessors differs from the first: %s", d)
 	}
 	t.Count("reuse_histories", 1)
